@@ -156,15 +156,29 @@ func newRPCEnv(transport, proto string, proc frugal.FProcessor, o rpcOpts) (*rpc
 			return nil, err
 		}
 		srv := frugal.NewFSimpleServer(proc, sock, pf)
+		// the client under test and two idle ones connect before the server starts accepting:
+		// the accept loop finds a backlog and takes the connections back to back
+		var opened []frugal.FTransport
+		for i := 0; i < 3; i++ {
+			ts := thrift.NewTSocketConf(sock.Addr().String(), &thrift.TConfiguration{ConnectTimeout: 3 * time.Second})
+			t := frugal.NewAdapterTransport(ts)
+			if err := t.Open(); err != nil {
+				for _, o := range opened {
+					o.Close()
+				}
+				sock.Close()
+				return nil, err
+			}
+			opened = append(opened, t)
+		}
+		tr = opened[0]
 		go srv.Serve()
 		e.cleanup = append(e.cleanup, func() { srv.Stop() })
-		ts := thrift.NewTSocketConf(sock.Addr().String(), &thrift.TConfiguration{ConnectTimeout: 3 * time.Second})
-		tr = frugal.NewAdapterTransport(ts)
-		if err := tr.Open(); err != nil {
-			e.close()
-			return nil, err
-		}
-		e.cleanup = append(e.cleanup, func() { tr.Close() })
+		e.cleanup = append(e.cleanup, func() {
+			for _, o := range opened {
+				o.Close()
+			}
+		})
 	case "http":
 		ts := httptest.NewServer(frugal.NewFrugalHandlerFunc(proc, pf))
 		e.cleanup = append(e.cleanup, ts.Close)
